@@ -2,8 +2,10 @@ package props
 
 import (
 	"net/netip"
+	"regexp"
 	"sort"
 	"strings"
+	"sync"
 
 	"github.com/AdguardTeam/urlfilter"
 	"github.com/AdguardTeam/urlfilter/rules"
@@ -119,35 +121,37 @@ type Cli struct {
 // NetModel is a network rule as a value.  The oracle evaluates the model; the
 // code under test parses a rendering of it.
 type NetModel struct {
-	Exc      bool     `json:"exc,omitempty"`
-	Pat      string   `json:"pat"`
-	TP       int      `json:"tp,omitempty"` // 0 none, 1 third-party, 2 first-party
-	MC       bool     `json:"mc,omitempty"`
-	TIncl    []string `json:"tincl,omitempty"`
-	TExcl    []string `json:"texcl,omitempty"`
-	DPerm    []string `json:"dperm,omitempty"`
-	DRestr   []string `json:"drestr,omitempty"`
-	Deny     []string `json:"deny,omitempty"`
-	QPerm    []string `json:"qperm,omitempty"`
-	QRestr   []string `json:"qrestr,omitempty"`
-	GPerm    []string `json:"gperm,omitempty"`
-	GRestr   []string `json:"grestr,omitempty"`
-	CPerm    []Cli    `json:"cperm,omitempty"`
-	CRestr   []Cli    `json:"crestr,omitempty"`
-	Extra    []string `json:"extra,omitempty"` // flag options without a value: important, badfilter, elemhide, ...
-	Rewrite  *string  `json:"rewrite,omitempty"`
+	Exc     bool     `json:"exc,omitempty"`
+	Pat     string   `json:"pat"`
+	TP      int      `json:"tp,omitempty"` // 0 none, 1 third-party, 2 first-party
+	MC      bool     `json:"mc,omitempty"`
+	TIncl   []string `json:"tincl,omitempty"`
+	TExcl   []string `json:"texcl,omitempty"`
+	DPerm   []string `json:"dperm,omitempty"`
+	DRestr  []string `json:"drestr,omitempty"`
+	Deny    []string `json:"deny,omitempty"`
+	QPerm   []string `json:"qperm,omitempty"`
+	QRestr  []string `json:"qrestr,omitempty"`
+	GPerm   []string `json:"gperm,omitempty"`
+	GRestr  []string `json:"grestr,omitempty"`
+	CPerm   []Cli    `json:"cperm,omitempty"`
+	CRestr  []Cli    `json:"crestr,omitempty"`
+	Extra   []string `json:"extra,omitempty"` // flag options without a value: important, badfilter, elemhide, ...
+	Rewrite *string  `json:"rewrite,omitempty"`
 }
 
 type modelOpts struct {
-	patterns    []string
-	noBrowser   bool // no $domain/third-party/match-case/content-type (DNS-applicable only)
-	modChance   int  // 1 in N for each modifier group (default 3)
-	noClient    bool
+	patterns  []string
+	noBrowser bool // no $domain/third-party/match-case/content-type (DNS-applicable only)
+	modChance int  // 1 in N for each modifier group (default 3)
+	noClient  bool
 }
 
 var defaultPatterns = []string{"||example.org^", "||google.com^", "|https://a.com/", "example", "/ads/x", "a.com|", "://1.2.",
 	"||1.2.3.4^", "google", "ab", "*", "||", "||sub.example.org^", "|http://", "example.org/ads/*", "^ads^", "||example.org^*x", "GOOGLE",
-	"/ad-server.", "/sub.", "/example.", "/ad_server."}
+	"/ad-server.", "/sub.", "/example.", "/ad_server.",
+	// regular expressions whose longest literal has capital letters
+	"/Banner[0-9]/", "/^Tracker[0-9]+\\.example/", "/Exampl[e]\\.ORG/"}
 
 func genNetModel(t *rapid.T, o modelOpts) NetModel {
 	var m NetModel
@@ -439,7 +443,7 @@ func mkDNSReq(q Q) *urlfilter.DNSRequest {
 	return dr
 }
 
-var urlTails = []string{"", "/", "/ads/x.js", ":8080/example?google", "/AB", "/ads/", "/path?q=example.org", "/a.com", "/ads^x"}
+var urlTails = []string{"", "/", "/ads/x.js", ":8080/example?google", "/AB", "/ads/", "/path?q=example.org", "/a.com", "/ads^x", "/banner7.gif", "/BANNER7"}
 
 // genClientFields fills the client part of a request, steered towards the
 // rule's own values and near misses when a model is given.
@@ -737,10 +741,33 @@ func refMatch(m NetModel, q Q) (ok bool, why string) {
 	if len(m.CPerm) > 0 && !refCliContains(m.CPerm, q.CName, q.CIP) {
 		return false, "client-permitted"
 	}
-	if !parseRefMask(m.Pat).match(refTarget(m.Pat, q), m.MC) {
+	if !refPatMatch(m.Pat, refTarget(m.Pat, q), m.MC) {
 		return false, "pattern"
 	}
 	return true, "match"
+}
+
+var refRegexCache sync.Map // expression text -> *regexp.Regexp of the reference
+
+// refPatMatch: the pattern text applied to the target.  A /regular expression/
+// is compiled as written (case-insensitive unless $match-case), anything else
+// is a mask.
+func refPatMatch(pat, target string, mc bool) bool {
+	if len(pat) > 1 && pat[0] == '/' && pat[len(pat)-1] == '/' {
+		src := pat[1 : len(pat)-1]
+		if !mc {
+			src = "(?i)" + src
+		}
+		var re *regexp.Regexp
+		if v, ok := refRegexCache.Load(src); ok {
+			re, _ = v.(*regexp.Regexp)
+		} else {
+			re, _ = regexp.Compile(src)
+			refRegexCache.Store(src, re)
+		}
+		return re != nil && re.MatchString(target)
+	}
+	return parseRefMask(pat).match(target, mc)
 }
 
 func sortedKeys(m map[string]bool) []string {
@@ -786,7 +813,7 @@ func netTexts(rs []*rules.NetworkRule) []string {
 var candHosts = []string{"example.org", "www.example.org", "google.com", "a.com", "1.2.3.4", "1.2.9.9", "notexample.org",
 	"sub.example.org", "ads.example.com", "google.co.uk", "b.net", "x.a.com", "x.sub.example.org", "ads.net",
 	"abc.de", "dead.beef", "1.2.3", // hex digits and dots only, but not IP addresses
-	"ad-server.example.org", "ad_server.example.org"}
+	"ad-server.example.org", "ad_server.example.org", "tracker1.example.com", "tracker22.example.com"} // host-name requests carry lower-case names (the caller's duty)
 
 func candidateURLs() []string {
 	var out []string
@@ -797,6 +824,8 @@ func candidateURLs() []string {
 			}
 		}
 	}
+	// in a URL the host may be written in any letter case
+	out = append(out, "http://Tracker22.Example.com/", "https://TRACKER1.example.com/Banner7.gif")
 	return out
 }
 
@@ -821,13 +850,12 @@ func repairQ(t *rapid.T, q Q, m NetModel) Q {
 		}
 		return !refSubOfAny(h, m.Deny)
 	}
-	mask := parseRefMask(m.Pat)
 	if q.Host {
 		q.URL, q.Src, q.Typ = "", "", ""
 		var ok []string
 		for _, h := range candHosts {
 			hq := Q{Host: true, Hostname: h}
-			if denyOK(h, true) && mask.match(refTarget(m.Pat, hq), m.MC) {
+			if denyOK(h, true) && refPatMatch(m.Pat, refTarget(m.Pat, hq), m.MC) {
 				ok = append(ok, h)
 			}
 		}
@@ -845,7 +873,7 @@ func repairQ(t *rapid.T, q Q, m NetModel) Q {
 		q.Hostname, q.DNSType = "", ""
 		var ok []string
 		for _, u := range allCandURLs {
-			if denyOK(refHostOf(u), false) && mask.match(u, m.MC) {
+			if denyOK(refHostOf(u), false) && refPatMatch(m.Pat, u, m.MC) {
 				ok = append(ok, u)
 			}
 		}
